@@ -398,7 +398,7 @@ func domainOf(ref *lib.TLRep, cfg lib.TLCfg, codes []codeSpec) string {
 		return "snr"
 	}
 	for _, cs := range codes {
-		if cs.Cycle > math.MaxInt64/ref.Timescale {
+		if cs.Cycle > math.MaxInt32 {
 			return "wrap-cycle"
 		}
 		if cs.Cycle*ref.Timescale < ref.Segs[0].End {
@@ -443,6 +443,12 @@ func (h *harness) statusRequest(a *lib.TLAsset, r *lib.TLRep, cfg lib.TLCfg, cod
 	}
 	// oracle
 	switch {
+	case dom == "wrap-cycle": // a cycle the parser must refuse (cycle * timescale would wrap)
+		if status != 400 {
+			h.c.Fail(id, statusKey(status, resp.Panic, 0, 400), fmt.Sprintf("cycle %d s does not fit: the parameter must be refused (400), answered %d %s", codes[0].Cycle, status, resp.Panic), in)
+		} else {
+			h.dist[fmt.Sprintf("%s/%s/%s/%d/refused", a.Path, r.ID, cfg.URLPrefix(), n)] = true
+		}
 	case base.Status != 200:
 		h.c.Fail(id, "baseline-"+fmt.Sprint(base.Status), fmt.Sprintf("the request without statuscode_ is answered %d %s", base.Status, base.Panic), in)
 	case exp != 0 && int64(status) != exp:
@@ -581,7 +587,7 @@ func (h *harness) statusSweep(assets []*lib.TLAsset) {
 		}
 		// findings stream: a cycle whose length in ticks wraps the 64-bit int (2^60 s * 90000 = 0 mod 2^64)
 		if a.Path == "testpic_2s" {
-			for _, cycle := range []int64{1 << 60, 1<<60 + 1, 102481911520608} {
+			for _, cycle := range []int64{1 << 60, 1<<60 + 1, 102481911520608, 1 << 31, 1<<31 - 1} {
 				codes := []codeSpec{{Cycle: cycle, Rsq: 38, Code: 404}}
 				for n := int64(36); n <= 40; n++ {
 					h.statusRequest(a, ref, lib.TLCfg{Snr: -1, Tsbd: -1, Mode: "number"}, codes, n, 1)
@@ -821,12 +827,16 @@ func (h *harness) finishTraffic(q *trafficReq) {
 		if status != 503 || dc != 10 {
 			what = fmt.Sprintf("hanging at this second: must be 503 after 10 s, answered %d after %v", status, q.elapsed)
 		}
+	case 'x': // invalid parameter
+		if status != 400 {
+			what = fmt.Sprintf("traffic_%s has a component without a cycle duration and must be refused (400), answered %d", in.Pattern, status)
+		}
 	case 0: // no bu element: answered as without the parameter
 		if status != basePlain.Status || !basePlain.sameBody(q.resp.Body) {
 			what = fmt.Sprintf("no BaseURL element in the path: must be answered as without traffic_ (%d), answered %d", basePlain.Status, status)
 		}
 	}
-	if q.want != 0 && baseStrip.Status != 200 {
+	if q.want != 0 && q.want != 'x' && baseStrip.Status != 200 {
 		what = fmt.Sprintf("baseline request answered %d", baseStrip.Status)
 	}
 	if what != "" {
@@ -907,8 +917,9 @@ func (h *harness) trafficSweep(a *lib.TLAsset) {
 	}{
 		{"u1d1", "", 0, 0, "ok"}, {"d5", "", 0, 0, "ok"}, {"u1d1,d1u1", "bux/", 0, 0, "ok"},
 		{"u1d1,d1u1", "bu01/", 1, '?', "ok"}, {"u1d1,d1u1", "bu00/", 0, '?', "ok"},
-		{"u10,", "bu1/", 1, 'u', "empty-pattern"}, {"12", "bu0/", 0, 'u', "empty-pattern"}, {"u10,,d3", "bu1/", 1, 'u', "empty-pattern"},
-		{",u3", "bu0/", 0, 'u', "empty-pattern"},
+		// a component without a cycle duration: the whole parameter is invalid, every request is refused
+		{"u10,", "bu1/", 1, 'x', "empty-pattern"}, {"12", "bu0/", 0, 'x', "empty-pattern"}, {"u10,,d3", "bu1/", 1, 'x', "empty-pattern"},
+		{",u3", "bu0/", 0, 'x', "empty-pattern"}, {"u10,", "bu0/", 0, 'x', "empty-pattern"}, {"u0", "bu0/", 0, 'x', "empty-pattern"},
 	} {
 		for s := int64(3000); s < 3004; s++ {
 			want := x.want
@@ -994,6 +1005,18 @@ func parsePat(s string) []itvl {
 	return out
 }
 
+var validCompRe = regexp.MustCompile(`^[0-9]*([udsh]0*[1-9][0-9]*)+$`)
+
+// validTraffic: every comma-separated component describes at least one interval with positive durations.
+func validTraffic(p string) bool {
+	for _, comp := range strings.Split(p, ",") {
+		if !validCompRe.MatchString(comp) {
+			return false
+		}
+	}
+	return true
+}
+
 var baseURLRe = regexp.MustCompile(`<BaseURL>([^<]*)</BaseURL>`)
 
 func (h *harness) baseURLSweep(assets []*lib.TLAsset) {
@@ -1023,8 +1046,11 @@ func (h *harness) baseURLSweep(assets []*lib.TLAsset) {
 				for i := 0; ok && i < nPat; i++ {
 					ok = got[i] == fmt.Sprintf("bu%d/", i)
 				}
+				if !validTraffic(p) { // a component without a cycle duration: the MPD must not offer a BaseURL for it
+					ok = resp.Status == 400
+				}
 				if !ok {
-					c.Fail(id, "baseurls", fmt.Sprintf("MPD for traffic_%s: status %d %s, BaseURLs %v, expected bu0/ .. bu%d/", p, resp.Status, resp.Panic, got, nPat-1), in)
+					c.Fail(id, "baseurls", fmt.Sprintf("MPD for traffic_%s: status %d %s, BaseURLs %v, expected bu0/ .. bu%d/ (400 for an invalid pattern)", p, resp.Status, resp.Panic, got, nPat-1), in)
 				} else {
 					h.dist["base/"+a.Path+"/"+p+"/"+mode] = true
 				}
@@ -1032,7 +1058,7 @@ func (h *harness) baseURLSweep(assets []*lib.TLAsset) {
 				for _, g := range got {
 					q = append(q, lib.CoqString(g))
 				}
-				h.terms = append(h.terms, fmt.Sprintf("CBase %s %s [%s]", id, lib.Zbytes([]byte(p)), strings.Join(q, "; ")))
+				h.terms = append(h.terms, fmt.Sprintf("CBase %s %s %d [%s]", id, lib.Zbytes([]byte(p)), resp.Status, strings.Join(q, "; ")))
 			}
 		}
 	}
@@ -1211,7 +1237,9 @@ func (h *harness) replay(in c14in, assets []*lib.TLAsset) {
 		_, plain, strip, _ := h.trafficURL(a, r, in.Pattern, "", in.N, in.NowMS)
 		_ = plain
 		want := byte(0)
-		if parts := strings.Split(in.Pattern, ","); in.BU < len(parts) && strings.Contains(in.SegPart, "/bu") {
+		if !validTraffic(in.Pattern) {
+			want = 'x'
+		} else if parts := strings.Split(in.Pattern, ","); in.BU < len(parts) && strings.Contains(in.SegPart, "/bu") {
 			if fl := flatten(parsePat(parts[in.BU])); len(fl) > 0 {
 				want = fl[(in.NowMS/1000)%int64(len(fl))]
 			} else {
@@ -1243,6 +1271,9 @@ func (h *harness) replay(in c14in, assets []*lib.TLAsset) {
 		ok := resp.Status == 200 && len(got) == nPat
 		for i := 0; ok && i < nPat; i++ {
 			ok = got[i] == fmt.Sprintf("bu%d/", i)
+		}
+		if !validTraffic(in.Pattern) {
+			ok = resp.Status == 400
 		}
 		if !ok {
 			h.c.Fail("replay", "baseurls", fmt.Sprintf("BaseURLs %v", got), in)
